@@ -261,6 +261,8 @@ pub struct AppSpec {
     /// embedder presets
     pub cohort: [Option<String>; 3],
     pub days: Option<u32>,
+    /// extra request fields (keys never collide with protocol keys)
+    pub extras: Vec<(String, String)>,
 }
 
 #[derive(Clone, Copy, Debug, PartialEq, Eq, Hash, Default)]
